@@ -179,7 +179,7 @@ def _idattr_case(case):
 def bounded(tier, seed):
 	rnd = random.Random(seed)
 	cases = []
-	for i in range(6 if tier == 'quick' else 40):
+	for i in range(6 if tier == 'quick' else 6000):
 		cases.append({'kind': 'pair', 'seed': rnd.randrange(10 ** 6), 'extra': rnd.choice([0, 1, 5, 40]), 'chunksize': rnd.choice([1, 7, 1000])})
 	cases += [{'kind': 'pair', 'seed': 1, 'drop': 1}, {'kind': 'pair', 'seed': 2, 'drop': 3, 'extra': 5}, {'kind': 'pair', 'seed': 3, 'id_attr': False}]
 	for attr in ('key', 'genbank_acc', 'refseq_acc', 'ncbi_id'):
